@@ -51,6 +51,8 @@ for d in sorted(glob.glob(R + '/seeded/*')):
     if not os.path.exists(d + '/meta.json'):
         continue
     m = json.load(open(d + '/meta.json'))
+    if str(m.get('kind', '')).startswith('benign'):
+        continue  # behaviour-preserving refactors: table T3b
     name = os.path.basename(d)
     conf = open(d + '/confirm.log').read() if os.path.exists(d + '/confirm.log') else ''
     okc = 'yes' if ('demo WITH patch: fails' in conf and 'demo WITHOUT patch: pass' in conf) else 'see confirm.log'
@@ -59,6 +61,27 @@ for d in sorted(glob.glob(R + '/seeded/*')):
     if r:
         caught = '; '.join('%s: %s' % (p, (re.search(r'obligation="([^"]+)"', c['first']) or re.search(r'(finding=\S+)', c['first']) or [None, 'exit %d' % c['exit']])[1]) for p, c in r['checks'].items())
     out.append('| %s | %s | %s | %s | %s |' % (name, m.get('property'), m.get('summary', '')[:260].replace('|', '/').replace('\n', ' '), okc, caught))
+out.append('')
+
+out.append('#### T3b. Behaviour-preserving refactors written by sub-agents (must stay quiet)\n')
+out.append('| refactor | property | change (sub-agent\'s summary, shortened) | confirmed (demo passes with and without the patch; suite green) | checks (last self-test run) |')
+out.append('|---|---|---|---|---|')
+for d in sorted(glob.glob(R + '/seeded/*')):
+    if not os.path.exists(d + '/meta.json'):
+        continue
+    m = json.load(open(d + '/meta.json'))
+    if not str(m.get('kind', '')).startswith('benign'):
+        continue
+    name = os.path.basename(d)
+    conf = open(d + '/confirm.log').read() if os.path.exists(d + '/confirm.log') else ''
+    okc = 'yes' if ('demo WITH patch: pass' in conf and 'demo WITHOUT patch: pass' in conf and 'suite green' in conf) else 'see confirm.log'
+    if m.get('kind') == 'benign-rejected':
+        okc = 'REJECTED: not behaviour-preserving (see meta.json); not part of the corpus'
+    if m.get('kind') == 'benign-limit':
+        okc += '; ALARM REMAINS: the loop invariants need re-annotation (limit_note in meta.json); not part of the must-stay-quiet corpus'
+    r = last.get(name)
+    res = ' '.join('%s:%d/%d' % (p, c['exit'], c['violations']) for p, c in r['checks'].items()) if r else ''
+    out.append('| %s | %s | %s | %s | %s |' % (name, m.get('property'), m.get('summary', '')[:260].replace('|', '/').replace('\n', ' '), okc, res))
 out.append('')
 
 if last:
